@@ -1,12 +1,15 @@
 #!/bin/bash
-# seedrun.sh <patch.diff> <vk args...> : apply a seeded change to /repo, run a check, ALWAYS undo the change
+# seedrun.sh <patch.diff> <vk args...> : run a check against a seeded change WITHOUT touching /repo:
+# a scratch git worktree of /repo's HEAD outside /repo and /verif gets the patch, the check reads it via VK_REPO.
+# (equivalent to `git -C /repo apply`; run; `git -C /repo checkout -- .` -- but safe to run next to other checks)
 set -u
 patch="$1"; shift
+wt=$(mktemp -d /var/tmp/seedwt.XXXXXX)
+git -C /repo worktree add --detach -q "$wt" HEAD || exit 3
+trap 'git -C /repo worktree remove --force "$wt" 2>/dev/null; rm -rf "$wt"' EXIT
+git -C "$wt" apply "$patch" || { echo "seedrun: patch does not apply"; exit 3; }
 cd /verif
-if [ -n "$(git -C /repo status --porcelain)" ]; then echo "seedrun: /repo is not clean"; exit 3; fi
-git -C /repo apply "$patch" || { echo "seedrun: patch does not apply"; exit 3; }
-trap 'git -C /repo checkout -- . ; git -C /repo clean -fdq -e target' EXIT
-./vk "$@"
+VK_REPO="$wt" ./vk "$@"
 rc=$?
 echo "seedrun: rc=$rc"
 exit $rc
